@@ -80,7 +80,52 @@ def reformulate(pep):
         part.get_block(leaves[0].list_of_points[0][0], 0)
 
 
-def call_example(entry, kwargs, wrapper="cvxpy", reformulated=False, solver="CLARABEL"):
+@contextlib.contextmanager
+def scaled_blocks(active):
+    """Equivalent formulation of every block decomposition written in an example: P_i(p) is obtained as P_i(2 p) / 2
+    (coordinate-block projections are linear).  Calls made by the library itself (class constraints) are left alone."""
+    if not active:
+        yield
+        return
+    import sys as _sys
+    from PEPit.block_partition import BlockPartition
+    orig = BlockPartition.get_block
+
+    def get_block(self, point, block_number):
+        caller = _sys._getframe(1).f_globals.get("__name__", "")
+        if caller.startswith("PEPit.examples") or caller.startswith("tests."):
+            return orig(self, 2.0 * point, block_number) / 2.0
+        return orig(self, point, block_number)
+    BlockPartition.get_block = get_block
+    try:
+        yield
+    finally:
+        BlockPartition.get_block = orig
+
+
+def _validated_interval(recs):
+    """[lower, upper] that the model's optimum is PROVEN to lie in, from what the library exposes after the solve, whatever
+    the solver says about its own accuracy: upper = the dual value when the exposed certificate passes the C01 oracle,
+    lower = the objective at the returned instance when that instance passes the C02 oracle (feasible, consistent)."""
+    from pv import oracles
+    lo = up = None
+    if len(recs) != 1 or recs[0].get("ret") is None:
+        return lo, up
+    rec = recs[0]
+    mode = rec["opts"].get("return_primal_or_dual", "dual")
+    try:
+        cf, _ci = oracles.certificate_check(rec, rec["ret"], mode)
+        if not cf and mode == "dual":
+            up = float(rec["ret"])
+        pf, pi = oracles.primal_check(rec, rec["ret"], mode)
+        if not pf and pi.get("min_metric") is not None:
+            lo = float(pi["min_metric"])
+    except Exception:
+        pass
+    return lo, up
+
+
+def call_example(entry, kwargs, wrapper="cvxpy", reformulated=False, solver="CLARABEL", interval=False):
     from pv import driver
     bd = driver.boundary()
     bd.default_solver = solver
@@ -92,12 +137,13 @@ def call_example(entry, kwargs, wrapper="cvxpy", reformulated=False, solver="CLA
     import inspect
     params = inspect.signature(fn).parameters
     extra = {k: v for k, v in (("wrapper", wrapper), ("solver", solver), ("verbose", -1)) if k in params}
-    with contextlib.redirect_stdout(io.StringIO()), warnings.catch_warnings():
+    with contextlib.redirect_stdout(io.StringIO()), warnings.catch_warnings(), scaled_blocks(reformulated):
         warnings.simplefilter("ignore")
         out = fn(**kwargs, **extra)
     bd.pre_solve = None
     recs = bd.records[n0:]
     statuses = [str(x["status"]).lower() for r in recs for x in r["inner"]]
+    call_example.last_interval = _validated_interval(recs) if interval else (None, None)
     return out, statuses, time.time() - t0
 
 
@@ -158,6 +204,39 @@ def run_shard(spec):
             continue
         scs_judged = False
         try:
+            import inspect as _insp
+            uses_blocks = variant is None and "declare_block_partition" in _insp.getsource(getattr(importlib.import_module(e["module"]), e["func"]))
+        except Exception:
+            uses_blocks = False
+        if uses_blocks and wrapper == "cvxpy" and e.get("cost") != "heavy":
+            # examples that decompose points into blocks: the value must not move when every decomposition written in the example
+            # is obtained as P_i(2 p) / 2 and the inequalities become function LMIs.  Clarabel often stops with
+            # optimal_inaccurate on these models: then the comparison is made on the PROVEN intervals of the two runs
+            try:
+                (pA, _tA), stA, _w = call_example(e, kw, wrapper, interval=True)
+                ivA = call_example.last_interval
+                (pB, _tB), stB, _w = call_example(e, kw, wrapper, reformulated=True, interval=True)
+                ivB = call_example.last_interval
+                bothopt = stA and stB and all(is_optimal_status(s_) for s_ in stA + stB)
+                if pA is not None and pB is not None and bothopt:
+                    counters["reformulations_judged"] = counters.get("reformulations_judged", 0) + 1
+                    if abs(pA - pB) > 1e-3 * abs(pA) + 1e-6:
+                        V("equivalent_formulation_moves_value:scaled_block_decomposition:%s" % e["name"],
+                          "%s(%s): %.8g as shipped, %.8g when every block decomposition is written P_i(2p)/2 and the inequalities as "
+                          "function LMIs" % (e["func"], kw, pA, pB), e, kw, wrapper)
+                elif None not in ivA and None not in ivB:
+                    counters["reformulations_judged_on_proven_intervals"] = counters.get("reformulations_judged_on_proven_intervals", 0) + 1
+                    gap = max(ivA[0] - ivB[1], ivB[0] - ivA[1])
+                    if gap > 1e-3 * max(abs(ivA[1]), abs(ivB[1])) + 1e-5:
+                        V("equivalent_formulation_moves_value:scaled_block_decomposition:%s" % e["name"],
+                          "%s(%s): the optimum is proven in [%.8g, %.8g] as shipped and in [%.8g, %.8g] when every block decomposition "
+                          "is written P_i(2p)/2 and the inequalities as function LMIs (statuses %s / %s)"
+                          % (e["func"], kw, ivA[0], ivA[1], ivB[0], ivB[1], stA, stB), e, kw, wrapper)
+                else:
+                    counters["reformulations_undecidable"] = counters.get("reformulations_undecidable", 0) + 1
+            except Exception as ex:
+                counters["reformulation_exceptions:" + type(ex).__name__] = counters.get("reformulation_exceptions:" + type(ex).__name__, 0) + 1
+        try:
             (pepit, theory), statuses, wall = call_example(e, kw, wrapper)
         except Exception as ex:
             name = type(ex).__name__
@@ -186,7 +265,8 @@ def run_shard(spec):
             if len(samples) < 3:
                 samples.append({"example": e["name"], "kwargs": kw, "wrapper": wrapper, "pepit": pepit, "theory": theory, "kind": e["kind"]})
             # the value must not move under an equivalent formulation (inequalities as 1x1 LMIs on a function)
-            if ok and not scs_judged and wrapper == "cvxpy" and random.Random(repr(sorted(kw.items()))).random() < 0.35 and e.get("cost") != "heavy":
+            if ok and not scs_judged and wrapper == "cvxpy" and e.get("cost") != "heavy" and \
+                    (not uses_blocks and random.Random(repr(sorted(kw.items()))).random() < 0.35):
                 try:
                     (p2, t2), st2, _w = call_example(e, kw, wrapper, reformulated=True)
                     if st2 and all(is_optimal_status(s_) for s_ in st2) and p2 is not None:
